@@ -10,7 +10,7 @@
 From Coq Require Import Extraction ExtrOcamlBasic ExtrOcamlZBigInt.
 From SB Require Import Base.Prelude Gen.Generated Model.Codec Model.Colors Spec.CodecSpec
   Model.Crc Model.Container Spec.CrcSpec Spec.ContainerSpec Model.Loaders Model.Rth Spec.RthSpec
-  Base.Num Model.Poly Model.Traj Spec.BezierSpec Spec.TrajSpec Model.Yaw Spec.YawSpec Model.Light Spec.LightSpec Base.F32 Model.Utils Model.Builder Model.Buffer Model.RootCert Model.Stats Model.Alloc.
+  Base.Num Model.Poly Model.Traj Spec.BezierSpec Spec.TrajSpec Model.Yaw Spec.YawSpec Model.Light Spec.LightSpec Base.F32 Model.Utils Model.Builder Model.Buffer Model.RootCert Model.Stats Model.Alloc Extract.XCheck.
 
 Extraction Language OCaml.
 
@@ -48,4 +48,6 @@ Extraction "sbmodel.ml"
   propose_takeoff propose_landing propose_landing_spec poly_max poly_min first_root root_boxes merge_boxes sign_change cauchy_bound
   shift_poly qeval irange zpoly axis_bounds max_degree
   (* C17 *)
-  scenario trace_of.
+  scenario trace_of
+  (* kernel cross-check *)
+  xc_arith xc_q xc_codec xc_crc xc_load xc_rth xc_traj xc_yaw xc_light xc_alloc.
